@@ -93,13 +93,14 @@ def single_cases(draw):
     return {"kind": "single", "spec": spec, "tree": tree, "size_choice": {lv: draw(st.integers(0, 5)) for lv in lower}}
 
 
-FUSED = ["chain2", "chain2", "chain3", "elementwise2", "diamond"]
+FUSED = ["chain2", "chain2", "chain3", "elementwise2", "diamond", "sharedw2", "sharedw2"]
 
 
 @st.composite
 def fused_cases(draw):
     shape = draw(st.sampled_from(FUSED))
-    es, rvs = {"chain2": G.chain(2), "chain3": G.chain(3), "elementwise2": G.elementwise(2), "diamond": G.diamond()}[shape]
+    es, rvs = {"chain2": G.chain(2), "chain3": G.chain(3), "elementwise2": G.elementwise(2), "diamond": G.diamond(),
+               "sharedw2": G.sharedw2()}[shape]
     bounds = {rv: draw(st.sampled_from([1, 2, 2, 3, 4])) for rv in rvs}
     all_t = []
     proj = {}
@@ -209,13 +210,27 @@ def fused_cases(draw):
 
     # (a tensor with a GLB node inside a branch is not eligible: removing that node would change the branch head and
     # with it the normal-form condition of the other nodes above the split)
-    cand = [t for t in main_t if t not in shared_t and t not in inter and t not in outs and first_loop_ok(t) and not in_branch(t)]
+    # (read-only tensors used by several Einsums are not eligible either: a non-backing copy shared by two Einsums above
+    # the split, persistent or not, is counted once per Einsum by the model -- open finding, known_findings.json C06)
+    multi_readers = [t for t in all_t if t not in outs and sum(1 for e in es for tt, _, o in e["tensors"] if tt == t and not o) >= 2]
+    cand = [t for t in main_t if t not in shared_t and t not in multi_readers and t not in inter and t not in outs
+            and first_loop_ok(t) and not in_branch(t)]
     if cand and draw(st.integers(0, 2)) == 0:
         pt = draw(st.sampled_from(cand))
         persistent_nodes = [{"k": "storage", "level": "GLB", "tensors": [pt], "persistent": True}]
         for br in branches:          # a tensor has at most one GLB node on a path
             br[:] = [x for x in br if not (x["k"] == "storage" and x["level"] == "GLB" and x["tensors"] == [pt])]
         n_instances = draw(st.sampled_from([1, 2, 3]))
+    # excluded by construction (known finding, known_findings.json C06): a read-only tensor used by several Einsums held
+    # NON-persistently in the GLB above the split is counted once per Einsum by the model
+    multi_ro = {t for t in all_t if t not in outs and sum(1 for e in es for tt, _, o in e["tensors"] if tt == t and not o) >= 2}
+    n_excl = 0
+    for nd in shared_nodes:
+        if nd.get("k") == "storage" and nd.get("level") == "GLB":
+            keep = [t for t in nd["tensors"] if t not in multi_ro]
+            n_excl += len(nd["tensors"]) - len(keep)
+            nd["tensors"] = keep
+    shared_nodes = [nd for nd in shared_nodes if nd.get("k") != "storage" or nd["tensors"]]
     tree = ([{"k": "storage", "level": "Main", "tensors": main_t}] + persistent_nodes + shared_nodes
             + [{"k": "seq", "branches": branches}])
     bits = draw(st.sampled_from([8, 16]))
@@ -226,7 +241,7 @@ def fused_cases(draw):
         nodes[1]["keep"] = "~Main"
     spec = {"einsums": es, "bounds": bounds, "bits": {"All": bits}, "nodes": nodes, "shape": shape, "n_instances": n_instances}
     return {"kind": "fused", "spec": spec, "tree": tree, "fused": fused_t, "n_shared_loops": len(shared_loops),
-            "persistent": bool(persistent_nodes), "size_choice": {"GLB": draw(st.integers(0, 5))}}
+            "persistent": bool(persistent_nodes), "excluded_shared_ro": n_excl, "size_choice": {"GLB": draw(st.integers(0, 5))}}
 
 
 @st.composite
@@ -355,7 +370,44 @@ def evaluate(desc):
     return r.resource_usage()
 
 
+KNOWN_SHARED_RO = "shared-readonly-copy-above-split"
+
+
+def shared_readonly_above_split(desc):
+    """tensors read (never written) by >= 2 Einsums that have a (non-backing) GLB node above the sequential split:
+    the model evaluates such a mapping Einsum by Einsum and counts that one tile once per Einsum (known finding)"""
+    if desc.get("kind") != "fused":
+        return []
+    readers, written = {}, set()
+    for e in desc["spec"]["einsums"]:
+        for t, _, o in e["tensors"]:
+            if o:
+                written.add(t)
+            else:
+                readers[t] = readers.get(t, 0) + 1
+    multi = {t for t, n in readers.items() if n >= 2 and t not in written}
+    out = []
+    for n in desc["tree"]:
+        if isinstance(n, dict) and n.get("k") == "seq":
+            break
+        if n.get("k") == "storage" and n.get("level") == "GLB":
+            out += [t for t in n["tensors"] if t in multi]
+    return out
+
+
 def check(desc, col):
+    ro = shared_readonly_above_split(desc)
+    if not ro:
+        return _check(desc, col)
+    try:
+        return _check(desc, col)
+    except Violation as v:
+        # only reachable from the stored replay of the known finding: the generators exclude this class by construction
+        raise Violation(v.message + f"\n(read-only tensor(s) {ro} shared by several Einsums are held non-persistently above the split)",
+                        key=f"{KNOWN_SHARED_RO}:{v.key}")
+
+
+def _check(desc, col):
     from accelforge.model.main import InvalidMappingError
 
     peaks, res = ref_peaks(desc)
@@ -377,6 +429,8 @@ def check(desc, col):
         labels = [f"fused:{desc['spec']['shape']}", "intermediate_in_glb" if desc["fused"] else "unfused",
                   ("persistent:n_instances=%d" % desc["spec"].get("n_instances", 1)) if desc.get("persistent") else "no_persistent",
                   f"shared_loops:{desc['n_shared_loops']}", "partial_lifetime" if partial else "full_lifetime"]
+        if desc.get("excluded_shared_ro"):
+            labels.append("excluded_by_construction:shared-readonly-copy-above-split")
     else:
         nontrivial = tight or len([n for n in desc["tree"] if n["k"] == "storage"]) >= 3
         labels = ["single", f"levels:{len(sizes)}"]
